@@ -574,10 +574,12 @@ def _encode(command: str, components: list[int], parts: list[str]) -> tuple[byte
 
 
 def _extended_community_hex(value: str) -> ExtendedCommunity:
-    # we could raise if the length is not 8 bytes (16 chars)
     if len(value) % 2:
         raise ValueError('invalid extended community {}'.format(value))
     raw = b''.join(bytes([int(value[_ : _ + 2], 16)]) for _ in range(2, len(value), 2))
+    # an extended community is eight bytes: fewer raised IndexError / struct.error further down, more were cut off
+    if len(raw) != 8:
+        raise ValueError('invalid extended community {}\n  The hexadecimal form is eight bytes long'.format(value))
     return cast(ExtendedCommunity, ExtendedCommunity.unpack_attribute(raw, None))
 
 
